@@ -3,7 +3,7 @@ import json, re
 from .. import core
 from . import stackcommon as sc
 
-EMITS = set("S V Q G A P R X E B ST CB TXT".split())
+EMITS = set("S V Q G A P R X E B ST CB TXT RACE".split())
 
 ADV_SETUP = ["wrongcode", "wrongproof", "noproof", "a0", "aN", "a2N", "aempty", "m5first", "start", "m3wrong", "m5zerokey",
              "m5randkey", "badstep", "badmethod", "garbage", "aNforged", "a0forged", "aemptyforged", "wrongcodezero", "m5zeroempty", "m5emptyhkdf"]
@@ -429,6 +429,9 @@ def gen_c09(rng, tier):
             if rng.random() < 0.3:
                 ops.append("CB")
         mk(cases, "rw", ops, opts="nacc=%d" % rng.choice([0, 0, 0, 12]))
+    # two controllers reading at the same time (a database of many chunks against long /characteristics answers)
+    for i in range(2 if tier == "quick" else 12):
+        mk(cases, "race", ["N:a", "S:a:c0:ok", "V:a:c0:ok", "N:b", "V:b:c0:ok", "RACE:a:b:%d" % (40 if tier == "quick" else 150)], opts="nacc=%d" % rng.choice([24, 40]))
     return cases
 
 
@@ -485,6 +488,8 @@ def oracle_c09(c, obs):
                 else:
                     if not e.endswith("!-70402"):
                         return "missing id %s is not answered with status -70402: %s" % (i, e)
+        if p[0] == "RACE" and tok != "RACE=ok":
+            return "two controllers reading at the same time: an answer was not what a controller reading alone gets (%s)" % tok[5:80]
         if p[0] == "A":
             m = re.match(r"^A=200:n\d+,canary=\d;(.*)$", tok, flags=re.S)
             if not m:
